@@ -373,10 +373,16 @@ def run_stmt(case, mon):
     key = "stmt:%s" % case["s"]
 
     def R(o):
-        try:
-            return [o.get_sql(contexts()[case["d"]])]
-        except Exception as e:
-            return ["<exc:%s>" % type(e).__name__]
+        # rendered twice, and a third time after a further builder call: what replace_table returns is an ordinary statement
+        out = []
+        for k_ in range(3):
+            try:
+                o2 = o if k_ < 2 or not hasattr(o, "limit") else o.limit(3)
+                s_ = o2.get_sql(contexts()[case["d"]])
+                out.append(s_ if k_ < 2 else s_.replace(" LIMIT 3", "").replace(" FETCH NEXT 3 ROWS ONLY", ""))
+            except Exception as e:
+                out.append("<exc:%s>" % type(e).__name__)
+        return out
     before = R(a)
     try:
         r = a.replace_table(t_old, t_new)
